@@ -400,7 +400,7 @@ func c35states() []c35St {
 }
 
 // newC35Drv builds a fresh fully wired inner ring node with its fixture.
-func newC35Drv(ctx context.Context) *c35Drv {
+func newC35Drv(ctx context.Context, warmUp bool) *c35Drv {
 	d := &c35Drv{ctx: ctx, me: fix.Key("c35me"), reqs: map[string]*irnode.Requester{}, owner: newParty("owner"), stranger: newParty("stranger"),
 		sess: newParty("session"), r: kit.Rand(35)}
 	for i := 0; len(d.smaller) < 6 || len(d.larger) < 10; i++ {
@@ -447,17 +447,19 @@ func newC35Drv(ctx context.Context) *c35Drv {
 	f.Srv.SetEpochDuration(240)
 	f.Srv.VerifSetPredefinedValidators(keys.PublicKeys{d.larger[0], d.larger[1], d.larger[2], d.larger[3]})
 
-	// warm-up: the netmap processor learns the current map (member state), discard what it sends
-	d.setState(c35St{1, 2, "ok", false})
-	d.drivers()["fs:netmap.NewEpoch"]()()
-	f.TakeAllSent()
+	if warmUp {
+		// the netmap processor learns the current map (member state), discard what it sends
+		d.setState(c35St{1, 2, "ok", false})
+		d.drivers()["fs:netmap.NewEpoch"]()()
+		f.TakeAllSent()
+	}
 	return d
 }
 
 func c35run(out string, casesPath string) {
 	ctx := context.Background()
 	fakechain.DefaultMsPerBlock = 1 // back-off of the placement update starts from the block time
-	d := newC35Drv(ctx)
+	d := newC35Drv(ctx, true)
 	f := d.f
 	drv := d.drivers()
 	// ---- enumerate the handler tables of the real listeners
@@ -523,7 +525,7 @@ func c35run(out string, casesPath string) {
 			// updatePlacementInContract retries a failing update with exponential back-off for up to 15 minutes:
 			// such a delivery runs on a throw-away node and is observed for a bounded time (every retry repeats the
 			// same call, so what the first attempts do not send is never sent)
-			run = newC35Drv(ctx)
+			run = newC35Drv(ctx, true)
 			rdrv = run.drivers()
 		}
 		// requests are built against the committee of the state, but with all lookups working
@@ -554,4 +556,111 @@ func c35run(out string, casesPath string) {
 	meta := kit.M{"registered": registered, "driven": driven, "unmodelled": unmodelled, "driven_but_not_registered": notRegistered, "extra_triggers": extra}
 	b, _ := json.MarshalIndent(meta, "", " ")
 	kit.Must(os.WriteFile(out+".meta.json", b, 0o644))
+}
+
+// ---- index-cache histories (spec/AlphabetHist.tla) ----
+
+type c35Chain struct {
+	AlphaIdx int    `json:"alphaIdx"`
+	IrIdx    int    `json:"irIdx"`
+	Lookup   string `json:"lookup"`
+}
+type c35HStep struct {
+	Ev   string    `json:"ev"` // Boot | Chain | Expire | Deliver
+	St   *c35Chain `json:"st,omitempty"`
+	Name string    `json:"name,omitempty"`
+}
+type c35HScript struct {
+	Steps []c35HStep `json:"steps"`
+}
+
+var c35HistEvents = []string{"main:neofs.Deposit", "timer:epoch", "fs:balance.Lock", "start:vote"}
+
+func c35histgen(out string) {
+	r := kit.Rand(351)
+	w := kit.NewW(out)
+	non := []c35Chain{{-1, -1, "ok"}, {-1, 0, "ok"}, {-1, 5, "ok"}}
+	mem := []c35Chain{{0, 0, "ok"}, {2, 1, "ok"}, {3, 5, "ok"}}
+	del := func(n string) c35HStep { return c35HStep{Ev: "Deliver", Name: n} }
+	ch := func(c c35Chain) c35HStep { return c35HStep{Ev: "Chain", St: &c} }
+	withErr := func(c c35Chain, e string) c35Chain { c.Lookup = e; return c }
+	// systematic: failed lookup, then a second query inside the cache window - at start-up and after a reset,
+	// for a node that never was a member and for a node that was voted out meanwhile
+	for _, e := range []string{"irErr", "cmErr"} {
+		for _, name := range c35HistEvents {
+			for _, n := range non {
+				w.Emit(c35HScript{[]c35HStep{{Ev: "Boot", St: &c35Chain{n.AlphaIdx, n.IrIdx, e}}, del(name), ch(n), del(name), del(name)}})
+				for _, m := range mem {
+					w.Emit(c35HScript{[]c35HStep{{Ev: "Boot", St: &m}, del(name), ch(withErr(n, e)), {Ev: "Expire"}, del(name), ch(n), del(name), del(name)}})
+				}
+			}
+			for _, m := range mem[:1] { // a member whose lookup fails once keeps working afterwards
+				w.Emit(c35HScript{[]c35HStep{{Ev: "Boot", St: &c35Chain{m.AlphaIdx, m.IrIdx, e}}, del(name), ch(m), del(name), {Ev: "Expire"}, del(name)}})
+			}
+		}
+	}
+	// random histories
+	N := 40
+	if kit.Thorough() {
+		N = 600
+	}
+	all := append(append([]c35Chain{}, non...), mem...)
+	rc := func() c35Chain {
+		c := all[r.Intn(len(all))]
+		if r.Intn(3) == 0 {
+			c.Lookup = []string{"irErr", "cmErr"}[r.Intn(2)]
+		}
+		return c
+	}
+	for i := 0; i < N; i++ {
+		c := rc()
+		s := c35HScript{[]c35HStep{{Ev: "Boot", St: &c}}}
+		for j := 0; j < 8; j++ {
+			switch x := r.Intn(10); {
+			case x < 5:
+				s.Steps = append(s.Steps, del(c35HistEvents[r.Intn(len(c35HistEvents))]))
+			case x < 8:
+				s.Steps = append(s.Steps, ch(rc()))
+			default:
+				s.Steps = append(s.Steps, c35HStep{Ev: "Expire"})
+			}
+		}
+		w.Emit(s)
+	}
+	w.Close()
+}
+
+func c35hist(in, out string) {
+	ctx := context.Background()
+	fakechain.DefaultMsPerBlock = 1
+	irnode.IndexerTimeout = time.Hour // expiry is driven explicitly through reset()
+	w := kit.NewW(out)
+	for _, s := range kit.ReadNDJSON[c35HScript](in) {
+		var d *c35Drv
+		var drv map[string]func() func()
+		for _, st := range s.Steps {
+			switch st.Ev {
+			case "Boot": // a freshly started node: the indexer has never been asked
+				d = newC35Drv(ctx, false)
+				drv = d.drivers()
+				d.setState(c35St{st.St.AlphaIdx, st.St.IrIdx, st.St.Lookup, false})
+				w.Emit(kit.M{"ev": "Boot", "st": st.St})
+			case "Chain":
+				d.setState(c35St{st.St.AlphaIdx, st.St.IrIdx, st.St.Lookup, false})
+				w.Emit(kit.M{"ev": "Chain", "st": st.St})
+			case "Expire":
+				d.f.Srv.VerifResetIndexer()
+				w.Emit(kit.M{"ev": "Expire"})
+			case "Deliver":
+				deliver := drv[st.Name]()
+				d.f.TakeAllSent()
+				deliver()
+				fs, mn := d.f.TakeAllSent()
+				auth, own, dups, names := classifySends(append(fs, mn...))
+				w.Emit(kit.M{"ev": "Deliver", "name": st.Name, "out": kit.M{"auth": auth, "own": own, "dups": dups}, "sent": names,
+					"ans": kit.M{"alpha": d.f.Srv.AlphabetIndex(), "ir": d.f.Srv.InnerRingIndex()}})
+			}
+		}
+	}
+	w.Close()
 }
